@@ -57,7 +57,7 @@ MODEL_B = """<?xml version="1.0" encoding="UTF-8"?>
 
 
 def build_workload(rng):
-    models, calls = [], []
+    models, calls, services = [], [], [[0, "Svc"]]
     models.append(MODEL_B)
     txts = ["abc123", "hello", "x9y8z7", "żółć", "aeiou", "UPPER", "a1", ""]
     days = ["2021-03-27", "2020-02-29", "1999-12-31", "2021-10-31", "2024-07-15"]
@@ -79,11 +79,12 @@ def build_workload(rng):
         models.append(gdrg.to_xml(m))
         mi = len(models) - 1
         invocables = [d["name"] for d in m["decisions"]] + [s["name"] for s in m["services"]]
+        services += [[mi, s["name"]] for s in m["services"]]
         for inv in invocables:
             for j in range(4):
                 inp = [[i["name"], rfeel.to_json(rfeel.num(rng.choice(gdrg.NUMS)) if i["type"] == "number" else rng.choice(gdrg.STRS))] for i in m["inputs"]]
                 calls.append([mi, inv, inp])
-    return models, calls
+    return models, calls, services
 
 
 def run(rep, tier, seed):
@@ -92,7 +93,7 @@ def run(rep, tier, seed):
     rep.rule = (
         "%d repetitions (thread counts 2, 3, 4, 8, 16 in turn; 60-400 calls per thread) of seeded call permutations over 4 shared evaluators (regular-expression, numeric, temporal-with-zones decisions, "
         "a boxed context using a knowledge model, a decision service; generated graphs with nested decisions, BKM chains, tables and services), with seeded yields / spins / sleeps at the hook between lock "
-        "acquisitions; each repetition ends with 3 rendezvous rounds (K = thread count evaluations held inside the evaluator at once); %d repetitions on the ThreadSanitizer build. Distinct = order signature of "
+        "acquisitions; then 6 hammer rounds per repetition (all threads call one invocable with 2-4 alternating inputs, identical inputs recurring, no delays); each repetition ends with 3 rendezvous rounds (K = thread count evaluations held inside the evaluator at once); %d repetitions on the ThreadSanitizer build. Distinct = order signature of "
         "the logical-clock event log; non-trivial = repetition in which calls of different threads overlapped." % (reps, tsan_reps)
     )
     rep.assumptions = [
@@ -100,14 +101,16 @@ def run(rep, tier, seed):
         "termination is decided as bounded progress: the rendezvous gate waits at most 20 s and a repetition at most 180 s for a workload that takes about a second",
     ]
     rng = rng_for(seed, "c20")
-    models, calls = build_workload(rng)
+    models, calls, services = build_workload(rng)
     cases = []
     for r in range(reps):
         n = [2, 3, 4, 8, 16][r % 5]
-        cases.append({"op": "threads", "models": models, "calls": calls, "threads": n, "per_thread": rng.choice([60, 120, 400]) if n <= 8 else 60, "seed": rng.randint(1, 2 ** 48), "rendezvous": n, "gate_timeout_ms": 20000})
+        cases.append({"op": "threads", "models": models, "calls": calls, "threads": n, "per_thread": rng.choice([60, 120, 400]) if n <= 8 else 60, "seed": rng.randint(1, 2 ** 48), "rendezvous": n, "gate_timeout_ms": 20000, "hammer_rounds": 6, "hammer_calls": 300 if n <= 8 else 150, "hammer_keys": rng.choice([2, 3, 4]), "hammer_prefer": services})
     results, meta = runner.run_cases("dbg", cases, rep.workdir, label="threads", nshards=4, case_timeout=180)
     sigs = set()
     total_calls = total_pairs = 0
+    hammer_calls = 0
+    hammer_targets = set()
     max_conc = 0
     rv_reached = rv_rounds = 0
     for case, res in zip(cases, results):
@@ -128,8 +131,10 @@ def run(rep, tier, seed):
             continue
         if not res.get("hook_installed"):
             raise runner.Inconclusive("the model-evaluator verification hook is not compiled in")
-        rep.count(res["calls"])
+        rep.count(res["calls"] + res.get("hammer_calls", 0))
         total_calls += res["calls"]
+        hammer_calls += res.get("hammer_calls", 0)
+        hammer_targets.update(res.get("hammer_targets", []))
         total_pairs += res["overlapping_pairs"]
         max_conc = max(max_conc, res["max_inside_hook"], res["max_overlap_logical"])
         if res["overlapping_pairs"] > 0:
@@ -155,14 +160,14 @@ def run(rep, tier, seed):
             rep.sample({k: res[k] for k in ("calls", "overlapping_pairs", "max_overlap_logical", "max_inside_hook", "order_signature", "rendezvous", "hook_events")})
     rep.distinct = sigs
     rep.extra.update({"call_events": total_calls, "overlapping_call_pairs": total_pairs, "max_observed_concurrency": max_conc, "distinct_overlap_signatures": len(sigs), "rendezvous_rounds": rv_rounds, "rendezvous_reached": rv_reached,
-                      "models": len(models), "distinct_calls": len(calls)})
+                      "models": len(models), "distinct_calls": len(calls), "hammer_calls_identical_inputs": hammer_calls, "hammer_invocables_covered": len(hammer_targets)})
     # ---- ThreadSanitizer ----
     try:
         runner.build("tsan")
         tcases = []
         for r in range(tsan_reps):
             n = [4, 8, 2, 16][r % 4]
-            tcases.append({"op": "threads", "models": models, "calls": calls, "threads": n, "per_thread": 40, "seed": rng.randint(1, 2 ** 48), "rendezvous": min(n, 4), "gate_timeout_ms": 60000})
+            tcases.append({"op": "threads", "models": models, "calls": calls, "threads": n, "per_thread": 40, "seed": rng.randint(1, 2 ** 48), "rendezvous": min(n, 4), "gate_timeout_ms": 60000, "hammer_rounds": 3, "hammer_calls": 40, "hammer_keys": 2, "hammer_prefer": services})
         tres, tmeta = runner.run_cases("tsan", tcases, rep.workdir, label="tsan", nshards=2, case_timeout=600)
         races = {}
         for text in tmeta["sanitizer_reports"]:
